@@ -70,6 +70,10 @@ func cliScript(kind, in string) string {
 			return "default_time(ts)\n"
 		}
 		return "add_key(ts, \"2021-03-04 05:06:07\")\ndefault_time(ts)\n"
+	case "setTimeEpoch":
+		return "add_key(t0, \"1970-01-01T00:00:00Z\")\ndefault_time(t0)\n"
+	case "setTimeBefore":
+		return "add_key(t0, \"1969-07-20T20:17:40Z\")\ndefault_time(t0)\n"
 	case "dropMsg":
 		return "add_key(keep, 1)\ndrop_key(message)\n"
 	case "useSibling":
@@ -334,7 +338,7 @@ func replayCli(args []string) (any, error) {
 			return nil
 		}
 		slack := time.Millisecond
-		if isText(v.Cfg.Input) && v.Out.Time != "set" {
+		if isText(v.Cfg.Input) && v.Out.Time == "in" {
 			slack = 30 * time.Second // "now" is taken twice
 		}
 		if d := samePoint(got, lib, slack); d != "" {
@@ -356,8 +360,14 @@ func replayCli(args []string) (any, error) {
 			bad(fmt.Sprintf("measurement %q, the script left %q", got.Meas, wantMeas))
 			return nil
 		}
-		if v.Out.Time == "set" {
+		if v.Out.Time != "in" {
 			want := time.Date(2021, 3, 4, 5, 6, 7, 0, time.UTC)
+			switch v.Out.Time {
+			case "epoch":
+				want = time.Unix(0, 0)
+			case "before":
+				want = time.Date(1969, 7, 20, 20, 17, 40, 0, time.UTC)
+			}
 			if !got.Time.Equal(want) {
 				bad(fmt.Sprintf("time %v, the script set %v", got.Time.UTC(), want))
 				return nil
